@@ -78,7 +78,12 @@ def programs(tier):
 
 def build_jobs(tier, seed, kf_on):
     cols_vocab, tables_vocab = harvest()
-    cols_vocab = cols_vocab + NEUTRAL_COLS
+    neutral = list(NEUTRAL_COLS)
+    if "sqlite_column_named_true" in kf_on:
+        # recorded finding (known_findings.json, replayed on the real engine before it is printed): SQLite cannot carry a column called true / false
+        # through a sub-query.  Those two names are then not renamed TO; every other keyword-like name still is.
+        neutral = [n for n in neutral if n not in ("true", "false")]
+    cols_vocab = cols_vocab + neutral
     tables_vocab = tables_vocab + NEUTRAL_TABLES
     jobs = []
     k = 0
@@ -95,7 +100,7 @@ def build_jobs(tier, seed, kf_on):
         for c in all_cols:
             cand = [v for v in cols_vocab]
             if tier == "quick":
-                cand = [cols_vocab[(k + i * 7) % len(cols_vocab)] for i in range(5)] + NEUTRAL_COLS
+                cand = [cols_vocab[(k + i * 7) % len(cols_vocab)] for i in range(5)] + neutral
                 k += 1
             for v in dict.fromkeys(cand):
                 renamings.append(({c: v}, {}))
